@@ -392,6 +392,7 @@ def run(ck):
         names = []
     thms = list(THEOREMS) + [n for n in names if n not in THEOREMS]
     ck.print_assumptions(["DSP.C08"], ["DSP.C08." + t for t in thms])
+    ck.source_tie("parser")
     ck.hygiene()
     ck.ocaml_build()
     ck.harness_build(["c08"])
